@@ -36,6 +36,7 @@ class SelectTableLineage:
         self._column_name_to_source_column_list_hash = {}  # 字段名到源字段对象列表的哈希映射
         self._column_idx_to_source_column_list_hash = {}  # 字段序号到源字段对象列表的哈希映射
         self._standard_table_set = {}  # 使用的上游表列表（使用字典保证顺序，避免结果依赖哈希种子）
+        self._data_lineage = list(data_lineage)  # 所有字段的有序列表（允许字段名重复）
         for standard_column, source_column_list in data_lineage:
             self._column_name_list.append(standard_column.column_name)
             self._column_name_to_standard_column_hash[standard_column.column_name] = standard_column
@@ -86,11 +87,7 @@ class SelectTableLineage:
 
     def all_columns(self) -> List[Tuple[node.StandardColumn, List[node.SourceColumn]]]:
         """获取所有字段的标准字段对象和源字段对象列表的元组的列表"""
-        data_lineage = []
-        for column_name in self._column_name_list:
-            data_lineage.append((self._column_name_to_standard_column_hash.get(column_name),
-                                 self._column_name_to_source_column_list_hash.get(column_name)))
-        return data_lineage
+        return list(self._data_lineage)
 
 
 class InsertTableLineage:
